@@ -280,7 +280,10 @@ func (g *reqGen) argsFor(kind string) string {
 			parts = []string{"prefix: \"only\""}
 		}
 	case "span":
-		switch g.t.Draw(8) {
+		switch g.t.Draw(10) {
+		case 8, 9:
+			// input objects inside a non-null list of non-null members
+			parts = []string{"r: {steps: [{lo: " + strconv.Itoa(g.t.Draw(9)) + "}, {}], hi: 2}"}
 		case 7:
 			parts = []string{"r: {parts: " + g.addVar("ps", "[Range]", []interface{}{map[string]interface{}{"hi": 2}}, "[{hi: 4}, {}, {inner: {}}]") + "}"}
 		case 0:
